@@ -275,25 +275,79 @@ unsafe extern "C" fn v_drop_readable(h: u32) {
     H.drop_readable_calls += 1;
 }
 
+// Stand-ins for the intrinsics of the end a harness does not own.  Separate
+// tables per side: CBMC turns every call through a table entry into a switch
+// over all address-taken functions of that signature, so a write-side harness
+// should not even contain the read-side mock (and vice versa).
+unsafe extern "C" fn no_start_write(_: u32, _: *const u8) -> u32 {
+    assert!(false, "future.write from a read-side scenario");
+    0
+}
+unsafe extern "C" fn no_start_read(_: u32, _: *mut u8) -> u32 {
+    assert!(false, "future.read from a write-side scenario");
+    0
+}
+unsafe extern "C" fn no_cancel(_: u32) -> u32 {
+    assert!(false, "cancel intrinsic of the other end");
+    0
+}
+unsafe extern "C" fn no_drop(_: u32) {
+    assert!(false, "drop intrinsic of the other end");
+}
+
 macro_rules! vtable {
-    ($name:ident, $t:ty) => {
+    (write $name:ident, $t:ty) => {
         static $name: FutureVtable<Val> = FutureVtable {
             layout: Layout::new::<$t>(),
             lower: v_lower,
             dealloc_lists: v_dealloc_lists,
             lift: v_lift,
             start_write: v_start_write,
-            start_read: v_start_read,
+            start_read: no_start_read,
             cancel_write: v_cancel_write,
-            cancel_read: v_cancel_read,
+            cancel_read: no_cancel,
             drop_writable: v_drop_writable,
+            drop_readable: no_drop,
+            new: v_new,
+        };
+    };
+    (read $name:ident, $t:ty) => {
+        static $name: FutureVtable<Val> = FutureVtable {
+            layout: Layout::new::<$t>(),
+            lower: v_lower,
+            dealloc_lists: v_dealloc_lists,
+            lift: v_lift,
+            start_write: no_start_write,
+            start_read: v_start_read,
+            cancel_write: no_cancel,
+            cancel_read: v_cancel_read,
+            drop_writable: no_drop,
             drop_readable: v_drop_readable,
             new: v_new,
         };
     };
 }
-vtable!(VT1, u8);
-vtable!(VT0, ());
+vtable!(write VT1, u8);
+vtable!(write VT0, ());
+vtable!(read VR1, u8);
+vtable!(read VR0, ());
+
+/// Replacement for `alloc::alloc::alloc`: the one allocation on these paths is
+/// the 1-byte value buffer (`Cleanup::new` of the element layout).  The layout
+/// is loaded through a pointer CBMC cannot always resolve statically; the
+/// request size then becomes a symbolic term and the formula explodes
+/// (measured: 5.8 M variables / out of memory).  The shim *asserts* that the
+/// requested layout is the 1-byte element layout and serves it with a
+/// constant-size request.
+unsafe fn alloc_one_byte(layout: Layout) -> *mut u8 {
+    assert!(layout.size() == 1 && layout.align() == 1, "unexpected allocation request");
+    std::alloc::alloc_zeroed(Layout::new::<u8>())
+}
+/// Same for the zero-sized payload: no allocation at all is expected.
+unsafe fn alloc_never(_: Layout) -> *mut u8 {
+    assert!(false, "allocation for a zero-sized payload");
+    core::ptr::null_mut()
+}
 
 fn default_val() -> Val {
     unsafe {
@@ -452,10 +506,11 @@ unsafe fn finish_write(end: WEnd, held: u32, wrote: bool) {
 }
 
 macro_rules! c20w {
-    ($name:ident, $vt:ident, $size:expr, [$($script:tt)*], $covers:expr) => {
+    ($name:ident, $vt:ident, $size:expr, $alloc:ident, [$($script:tt)*], $covers:expr) => {
         #[kani::proof]
         #[kani::unwind(3)]
         #[kani::stub(wit_bindgen::rt::async_support::cabi::wasip3_task_set, crate::mock_task::stub_task_set)]
+        #[kani::stub(std::alloc::alloc, $alloc)]
         fn $name() {
             unsafe {
                 H.elem_size = $size;
@@ -515,12 +570,12 @@ fn cw_c() {
     }
 }
 
-c20w!(c20_rawwrite_c, VT1, 1, [C], cw_c);
-c20w!(c20_rawwrite_pc, VT1, 1, [P C], cw_pc);
-c20w!(c20_rawwrite_pec, VT1, 1, [P E C], cw_pec);
-c20w!(c20_rawwrite_pep, VT1, 1, [P E P], cw_pep);
-c20w!(c20_rawwrite_zst_pc, VT0, 0, [P C], cw_pc);
-c20w!(c20_deep_rawwrite_ppc, VT1, 1, [P P C], cw_ppc);
+c20w!(c20_rawwrite_c, VT1, 1, alloc_one_byte, [C], cw_c);
+c20w!(c20_rawwrite_pc, VT1, 1, alloc_one_byte, [P C], cw_pc);
+c20w!(c20_rawwrite_pec, VT1, 1, alloc_one_byte, [P E C], cw_pec);
+c20w!(c20_rawwrite_pep, VT1, 1, alloc_one_byte, [P E P], cw_pep);
+c20w!(c20_rawwrite_zst_pc, VT0, 0, alloc_never, [P C], cw_pc);
+c20w!(c20_deep_rawwrite_ppc, VT1, 1, alloc_one_byte, [P P C], cw_ppc);
 
 // ---- (2) typed API: FutureWriter / FutureWrite and the default value ------------------
 //
@@ -534,18 +589,6 @@ c20w!(c20_deep_rawwrite_ppc, VT1, 1, [P P C], cw_ppc);
 // which drops a waker, ...  The `Arc`/`Wake` mechanics of `DeferredWrite` are
 // therefore outside the claim; *when* a default value is written, with which
 // value, and that the writable end is only released afterwards, is inside.
-
-/// Replacement for `alloc::alloc::alloc` in the typed harnesses: the one
-/// allocation on these paths is the 1-byte value buffer (`Cleanup::new` of the
-/// element layout).  Through the typed API the layout is loaded through a
-/// pointer CBMC cannot resolve statically, the request size becomes a symbolic
-/// term and the formula explodes (measured: 5.8 M variables / OOM).  The shim
-/// *asserts* that the requested layout is the 1-byte element layout and serves
-/// it with a constant-size request.
-unsafe fn alloc_one_byte(layout: Layout) -> *mut u8 {
-    assert!(layout.size() == 1 && layout.align() == 1, "unexpected allocation request");
-    std::alloc::alloc_zeroed(Layout::new::<u8>())
-}
 
 static mut DEFERRED_CALLS: u32 = 0;
 static mut DEFERRED_BLOCKED: bool = false;
@@ -763,10 +806,11 @@ unsafe fn finish_read(end: REnd, held: u32) {
 }
 
 macro_rules! c20r {
-    ($name:ident, $vt:ident, $size:expr, [$($script:tt)*], $covers:expr) => {
+    ($name:ident, $vt:ident, $size:expr, $alloc:ident, [$($script:tt)*], $covers:expr) => {
         #[kani::proof]
         #[kani::unwind(3)]
         #[kani::stub(wit_bindgen::rt::async_support::cabi::wasip3_task_set, crate::mock_task::stub_task_set)]
+        #[kani::stub(std::alloc::alloc, $alloc)]
         fn $name() {
             unsafe {
                 H.elem_size = $size;
@@ -826,12 +870,12 @@ fn cr_pec() {
     }
 }
 
-c20r!(c20_read_d, VT1, 1, [], cr_d);
-c20r!(c20_read_c, VT1, 1, [C], cr_d);
-c20r!(c20_read_pd, VT1, 1, [P], cr_pd);
-c20r!(c20_read_ped, VT1, 1, [P E], cr_ped);
-c20r!(c20_read_pepd, VT1, 1, [P E P], cr_pep);
-c20r!(c20_read_pc, VT1, 1, [P C], cr_pc);
-c20r!(c20_read_pec, VT1, 1, [P E C], cr_pec);
-c20r!(c20_read_zst_pd, VT0, 0, [P], cr_pd);
-c20r!(c20_deep_read_ppd, VT1, 1, [P P], cr_pd);
+c20r!(c20_read_d, VR1, 1, alloc_one_byte, [], cr_d);
+c20r!(c20_read_c, VR1, 1, alloc_one_byte, [C], cr_d);
+c20r!(c20_read_pd, VR1, 1, alloc_one_byte, [P], cr_pd);
+c20r!(c20_read_ped, VR1, 1, alloc_one_byte, [P E], cr_ped);
+c20r!(c20_read_pepd, VR1, 1, alloc_one_byte, [P E P], cr_pep);
+c20r!(c20_read_pc, VR1, 1, alloc_one_byte, [P C], cr_pc);
+c20r!(c20_read_pec, VR1, 1, alloc_one_byte, [P E C], cr_pec);
+c20r!(c20_read_zst_pd, VR0, 0, alloc_never, [P], cr_pd);
+c20r!(c20_deep_read_ppd, VR1, 1, alloc_one_byte, [P P], cr_pd);
